@@ -142,6 +142,11 @@ Proof.
 Qed.
 
 (** [root] *)
+(* in a goal about x < 0, write x = - y with 0 < y *)
+Ltac RB_flip x y Hy :=
+  assert (Hy : 0 < - x) by lra; replace x with (- (- x)) by ring;
+  revert Hy; generalize (- x); intros y Hy.
+
 Lemma RB_root_pos_eq (n : positive) (x : R) : 0 < x -> root n x = Rpower x (/ IZR (Zpos n)).
 Proof. intro Hx. unfold root. destruct (Rlt_dec 0 x); [reflexivity|contradiction]. Qed.
 
@@ -171,7 +176,7 @@ Proof.
   assert (P : forall y, 0 < y -> root 1 y = y).
   { intros y Hy. rewrite RB_root_pos_eq by assumption. rewrite Rinv_1. apply Rpower_1; assumption. }
   destruct (Rtotal_order x 0) as [Hx|[Hx|Hx]].
-  - replace x with (- (- x)) at 1 by ring. rewrite RB_root_opp, P by lra. ring.
+  - RB_flip x y Hy. rewrite RB_root_opp, P by assumption. reflexivity.
   - subst; apply RB_root_0.
   - apply P; assumption.
 Qed.
@@ -205,7 +210,7 @@ Proof.
   { intros y Hy. rewrite !RB_root_pos_eq by (try apply Rinv_0_lt_compat; assumption).
     apply RB_Rpower_inv_base; assumption. }
   intro Hx. destruct (Rtotal_order x 0) as [H|[H|H]]; [|contradiction|].
-  - replace x with (- (- x)) by ring. rewrite Rinv_opp, !RB_root_opp, P by lra.
+  - RB_flip x y Hy. rewrite Rinv_opp, !RB_root_opp, P by assumption.
     rewrite Rinv_opp. reflexivity.
   - apply P; assumption.
 Qed.
@@ -216,8 +221,8 @@ Lemma RB_root_pow_self (n : positive) (x : R) :
 Proof.
   intro H. destruct (Rtotal_order x 0) as [Hx|[Hx|Hx]].
   - destruct (Z.even (Zpos n)) eqn:E; [specialize (H eq_refl); lra|].
-    replace x with (- (- x)) at 1 by ring. rewrite RB_root_opp, RB_pow_opp_odd by assumption.
-    rewrite root_pos_pow by lra. ring.
+    clear H. RB_flip x y Hy. rewrite RB_root_opp, RB_pow_opp_odd by assumption.
+    rewrite root_pos_pow by assumption. reflexivity.
   - subst. rewrite RB_root_0. apply RB_pow_0.
   - apply root_pos_pow; assumption.
 Qed.
@@ -231,10 +236,10 @@ Proof.
     rewrite RB_Rpower_pow. rewrite <- RB_Rpower_posexp by assumption.
     rewrite Rpower_mult. reflexivity. }
   destruct (Rtotal_order x 0) as [Hx|[Hx|Hx]].
-  - replace x with (- (- x)) by ring. rewrite RB_root_opp.
+  - RB_flip x y Hy. rewrite RB_root_opp.
     destruct (Z.even (Zpos m)) eqn:E.
-    + rewrite !RB_pow_opp_even by assumption. apply P; lra.
-    + rewrite !RB_pow_opp_odd by assumption. rewrite RB_root_opp, P by lra. reflexivity.
+    + rewrite !RB_pow_opp_even by assumption. apply P; assumption.
+    + rewrite !RB_pow_opp_odd by assumption. rewrite RB_root_opp, P by assumption. reflexivity.
   - subst. rewrite RB_pow_0, RB_root_0, RB_pow_0. reflexivity.
   - apply P; assumption.
 Qed.
@@ -247,7 +252,7 @@ Proof.
     rewrite !RB_root_pos_eq by assumption. rewrite Rpower_mult. f_equal.
     rewrite Pos2Z.inj_mul, mult_IZR. field. split; apply RB_IZRpos_neq. }
   destruct (Rtotal_order x 0) as [Hx|[Hx|Hx]].
-  - replace x with (- (- x)) by ring. rewrite !RB_root_opp, P by lra. reflexivity.
+  - RB_flip x y Hy. rewrite !RB_root_opp, P by assumption. reflexivity.
   - subst. rewrite !RB_root_0. reflexivity.
   - apply P; assumption.
 Qed.
@@ -263,3 +268,540 @@ Proof.
   intro Eg. rewrite Pos2Z.inj_mul, Z.even_mul, Eg, orb_true_r in H. specialize (H eq_refl).
   destruct H as [H|H]; [left; apply RB_root_pos; assumption|right; subst; symmetry; apply RB_root_0].
 Qed.
+
+(** ** Tactics for the rule proofs *)
+Local Arguments Z.even : simpl never.
+Local Arguments Z.odd : simpl never.
+Local Arguments Pos.to_nat : simpl never.
+Local Arguments Pos.mul : simpl never.
+Local Arguments Pos.gcd : simpl never.
+Local Arguments Z.div : simpl never.
+Local Arguments Z.to_pos : simpl never.
+Local Arguments IZR : simpl never.
+Local Arguments Z.leb : simpl never.
+
+Ltac RB_des e a b n :=
+  destruct e as [?c|?x|?l|?l|a b|a b|a b|a|a|a|a|a n|a n|a b|a b]; try discriminate.
+
+Ltac RB_incl :=
+  let x := fresh "x" in let Hx := fresh "Hx" in
+  intros x Hx; simpl in *; rewrite ?in_app_iff in *; tauto.
+
+Ltac RB_inv H := inversion H; subst; clear H.
+
+(** ** Power *)
+Lemma reduce_u_to_the_one_sound :
+  forall e e' : expr R, reduce_u_to_the_one RInst e = Some e' -> refines e e'.
+Proof.
+  intros e e' H. unfold reduce_u_to_the_one in H.
+  RB_des e u v n. RB_des v w1 w2 n. simpl in H.
+  destruct (Reqb c 1) eqn:E; [|discriminate]. apply Reqb_true in E. RB_inv H.
+  intros Hwf. simpl in Hwf. destruct Hwf as [Hu _].
+  split; [assumption|]. split; [RB_incl|].
+  intros rho HD. simpl in *. destruct HD as (HDu & _ & Hpos).
+  split; [assumption|]. symmetry. apply Rpower_1; assumption.
+Qed.
+
+Lemma reduce_u_to_the_zero_sound :
+  forall e e' : expr R, reduce_u_to_the_zero RInst e = Some e' -> refines e e'.
+Proof.
+  intros e e' H. unfold reduce_u_to_the_zero in H.
+  RB_des e u v n. RB_des v w1 w2 n. simpl in H.
+  destruct (Reqb c 0) eqn:E; [|discriminate]. apply Reqb_true in E. RB_inv H.
+  intros Hwf. split; [exact I|]. split; [RB_incl|].
+  intros rho HD. simpl in *. destruct HD as (HDu & _ & Hpos).
+  split; [exact I|]. symmetry. apply Rpower_O; assumption.
+Qed.
+
+Lemma reduce_one_to_the_u_sound :
+  forall e e' : expr R, reduce_one_to_the_u RInst e = Some e' -> refines e e'.
+Proof.
+  intros e e' H. unfold reduce_one_to_the_u in H.
+  RB_des e u v n. RB_des u w1 w2 n. simpl in H.
+  destruct (Reqb c 1) eqn:E; [|discriminate]. apply Reqb_true in E. RB_inv H.
+  intros Hwf. split; [exact I|]. split; [RB_incl|].
+  intros rho HD. simpl in *.
+  split; [exact I|]. symmetry. apply RB_Rpower_1_base.
+Qed.
+
+Lemma reduce_u_to_the_n_at_least_two_sound :
+  forall e e' : expr R, reduce_u_to_the_n_at_least_two RInst e = Some e' -> refines e e'.
+Proof.
+  intros e e' H. unfold reduce_u_to_the_n_at_least_two in H.
+  RB_des e u v n. RB_des v w1 w2 n. simpl in H.
+  destruct (Rint c) as [z|] eqn:E; [|discriminate]. apply RB_Rint_eq in E.
+  destruct (Z.leb 2 z) eqn:Ez; [|discriminate]. apply Z.leb_le in Ez. RB_inv H.
+  intros Hwf. simpl in Hwf. destruct Hwf as [Hu _].
+  split; [assumption|]. split; [RB_incl|].
+  intros rho HD. simpl in *. destruct HD as (HDu & _ & Hpos).
+  split; [assumption|]. symmetry. apply RB_Rpower_IZR; [assumption|lia].
+Qed.
+
+Lemma reduce_u_to_the_negative_one_sound :
+  forall e e' : expr R, reduce_u_to_the_negative_one RInst e = Some e' -> refines e e'.
+Proof.
+  intros e e' H. unfold reduce_u_to_the_negative_one in H.
+  RB_des e u v n. RB_des v w1 w2 n. simpl in H.
+  destruct (Reqb c (-1)) eqn:E; [|discriminate]. apply Reqb_true in E. RB_inv H.
+  intros Hwf. simpl in Hwf. destruct Hwf as [Hu _].
+  split; [assumption|]. split; [RB_incl|].
+  intros rho HD. simpl in *. destruct HD as (HDu & _ & Hpos).
+  split; [split; [assumption|lra]|]. symmetry. apply RB_Rpower_m1; assumption.
+Qed.
+
+Lemma reduce_power_with_constant_base_sound :
+  forall e e' : expr R, reduce_power_with_constant_base RInst e = Some e' -> refines e e'.
+Proof.
+  intros e e' H. unfold reduce_power_with_constant_base in H.
+  RB_des e u v n. RB_des u w1 w2 n. simpl in H.
+  destruct (Rltb 0 c) eqn:E; [|discriminate]. simpl in H.
+  destruct (Reqb c 1) eqn:E1; [discriminate|]. RB_inv H.
+  intros Hwf. simpl in Hwf. destruct Hwf as [_ Hv].
+  split; [simpl; split; assumption|]. split; [RB_incl|].
+  intros rho HD. simpl in *. destruct HD as (_ & HDv & Hpos).
+  split; [assumption|reflexivity].
+Qed.
+
+Lemma reduce_power_of_power_sound :
+  forall e e' : expr R, reduce_power_of_power e = Some e' -> refines e e'.
+Proof.
+  intros e e' H. unfold reduce_power_of_power in H.
+  RB_des e u w n. RB_des u u v n. RB_inv H.
+  intros Hwf. simpl in Hwf. destruct Hwf as [[Hu Hv] Hw].
+  split; [simpl; tauto|]. split; [RB_incl|].
+  intros rho HD. simpl in *. destruct HD as ((HDu & HDv & Hpos) & HDw & _).
+  split; [tauto|]. rewrite Rpower_mult. f_equal. ring.
+Qed.
+
+Lemma reduce_u_to_the_negation_of_v_sound :
+  forall e e' : expr R, reduce_u_to_the_negation_of_v e = Some e' -> refines e e'.
+Proof.
+  intros e e' H. unfold reduce_u_to_the_negation_of_v in H.
+  RB_des e u w n. RB_des w v v2 n. RB_inv H.
+  intros Hwf. simpl in Hwf.
+  split; [simpl; tauto|]. split; [RB_incl|].
+  intros rho HD. simpl in *. destruct HD as (HDu & HDv & Hpos).
+  split; [split; [tauto|apply RB_Rpower_neq0]|]. symmetry. apply Rpower_Ropp.
+Qed.
+
+Lemma reduce_reciprocal_u_to_the_v_sound :
+  forall e e' : expr R, reduce_reciprocal_u_to_the_v e = Some e' -> refines e e'.
+Proof.
+  intros e e' H. unfold reduce_reciprocal_u_to_the_v in H.
+  RB_des e w v n. RB_des w u u2 n. RB_inv H.
+  intros Hwf. simpl in Hwf.
+  split; [simpl; tauto|]. split; [RB_incl|].
+  intros rho HD. simpl in *. destruct HD as ((HDu & Hne) & HDv & Hpos).
+  assert (Hu : 0 < denote rho u).
+  { destruct (Rtotal_order (denote rho u) 0) as [Hx|[Hx|Hx]]; [|contradiction|assumption].
+    pose proof (Rinv_lt_0_compat _ Hx). lra. }
+  split; [split; [tauto|apply RB_Rpower_neq0]|]. symmetry. apply RB_Rpower_inv_base; assumption.
+Qed.
+
+(** ** NthPower *)
+Lemma reduce_nth_power_where_n_is_one_sound :
+  forall e e' : expr R, reduce_nth_power_where_n_is_one e = Some e' -> refines e e'.
+Proof.
+  intros e e' H. unfold reduce_nth_power_where_n_is_one in H.
+  RB_des e u v n. destruct (Pos.eqb n 1) eqn:E; [|discriminate].
+  apply Pos.eqb_eq in E. RB_inv H.
+  intros Hwf. simpl in Hwf.
+  split; [assumption|]. split; [RB_incl|].
+  intros rho HD. simpl in *. split; [assumption|].
+  change (Pos.to_nat 1) with 1%nat. simpl. ring.
+Qed.
+
+(* m = Z.to_pos (m / g) * g when g divides m *)
+Lemma RB_div_gcd (m g : positive) :
+  (g | m)%positive -> m = (Z.to_pos (Zpos m / Zpos g) * g)%positive.
+Proof.
+  intros [r Hr]. subst m. rewrite Pos2Z.inj_mul, Z.div_mul by discriminate.
+  reflexivity.
+Qed.
+
+Lemma reduce_nth_power_of_mth_root_sound :
+  forall e e' : expr R, reduce_nth_power_of_mth_root e = Some e' -> refines e e'.
+Proof.
+  intros e e' H. unfold reduce_nth_power_of_mth_root in H.
+  RB_des e w v n. RB_des w u u2 m.
+  destruct (Pos.eqb m n) eqn:E.
+  - apply Pos.eqb_eq in E. RB_inv H.
+    intros Hwf. simpl in Hwf.
+    split; [assumption|]. split; [RB_incl|].
+    intros rho HD. simpl in *. destruct HD as (HDu & Hdom).
+    split; [assumption|]. symmetry. apply RB_root_pow_self.
+    intro Ev. destruct Hdom as [->|[_ Hp]]; [discriminate|]. left; auto.
+  - destruct (Pos.eqb (Pos.gcd m n) 1) eqn:Eg; [discriminate|].
+    apply Pos.eqb_neq in Eg. RB_inv H.
+    set (g := Pos.gcd m n) in *.
+    pose proof (RB_div_gcd m g (Pos.gcd_divide_l m n)) as Hm.
+    pose proof (RB_div_gcd n g (Pos.gcd_divide_r m n)) as Hn.
+    set (m' := Z.to_pos (Z.pos m / Z.pos g)) in *.
+    set (n' := Z.to_pos (Z.pos n / Z.pos g)) in *.
+    clearbody m' n' g.
+    intros Hwf. simpl in Hwf.
+    split; [assumption|]. split; [RB_incl|].
+    intros rho HD. simpl in *. destruct HD as (HDu & Hdom).
+    assert (Hm1 : m <> 1%positive) by (intro Em; rewrite Em in Hm; symmetry in Hm; apply Pos.mul_eq_1_r in Hm; contradiction).
+    destruct Hdom as [?|[Hne Hp]]; [contradiction|].
+    assert (Hev : Z.even (Zpos m') = true -> Z.even (Zpos m) = true).
+    { intro Ev. rewrite Hm, Pos2Z.inj_mul, Z.even_mul, Ev. reflexivity. }
+    split.
+    + split; [assumption|]. right. split; [assumption|]. intro Ev. auto.
+    + rewrite Hm, Hn. symmetry. apply RB_root_pow_scale.
+      rewrite <- Hm. intro Ev. left; auto.
+Qed.
+
+Lemma reduce_nth_power_of_mth_power_sound :
+  forall e e' : expr R, reduce_nth_power_of_mth_power e = Some e' -> refines e e'.
+Proof.
+  intros e e' H. unfold reduce_nth_power_of_mth_power in H.
+  RB_des e w v n. RB_des w u u2 m. RB_inv H.
+  intros Hwf. simpl in Hwf.
+  split; [assumption|]. split; [RB_incl|].
+  intros rho HD. simpl in *. split; [assumption|].
+  rewrite Pos2Nat.inj_mul, Nat.mul_comm, pow_mult. reflexivity.
+Qed.
+
+Lemma reduce_nth_power_of_negation_sound :
+  forall e e' : expr R, reduce_nth_power_of_negation e = Some e' -> refines e e'.
+Proof.
+  intros e e' H. unfold reduce_nth_power_of_negation in H.
+  RB_des e w v n. RB_des w u u2 m.
+  destruct (Z.even (Zpos n)) eqn:E; RB_inv H.
+  - intros Hwf. simpl in Hwf.
+    split; [assumption|]. split; [RB_incl|].
+    intros rho HD. simpl in *. split; [assumption|].
+    symmetry. apply RB_pow_opp_even; assumption.
+  - intros Hwf. simpl in Hwf.
+    split; [assumption|]. split; [RB_incl|].
+    intros rho HD. simpl in *. split; [assumption|].
+    symmetry. apply RB_pow_opp_odd; assumption.
+Qed.
+
+Lemma reduce_nth_power_of_reciprocal_sound :
+  forall e e' : expr R, reduce_nth_power_of_reciprocal e = Some e' -> refines e e'.
+Proof.
+  intros e e' H. unfold reduce_nth_power_of_reciprocal in H.
+  RB_des e w v n. RB_des w u u2 m. RB_inv H.
+  intros Hwf. simpl in Hwf.
+  split; [assumption|]. split; [RB_incl|].
+  intros rho HD. simpl in *. destruct HD as [HDu Hne].
+  split; [split; [assumption|apply pow_nonzero; assumption]|].
+  symmetry. apply pow_inv.
+Qed.
+
+Lemma reduce_nth_power_of_exponential_sound :
+  forall e e' : expr R, reduce_nth_power_of_exponential RInst e = Some e' -> refines e e'.
+Proof.
+  intros e e' H. unfold reduce_nth_power_of_exponential in H.
+  RB_des e w v n. RB_des w u b m. RB_inv H.
+  intros Hwf. simpl in Hwf. destruct Hwf as [Hb Hu].
+  split; [simpl; tauto|]. split; [RB_incl|].
+  intros rho HD. simpl in *. split; [tauto|].
+  rewrite RB_Rpower_pow. f_equal. ring.
+Qed.
+
+(** ** NthRoot *)
+Lemma reduce_nth_root_where_n_is_one_sound :
+  forall e e' : expr R, reduce_nth_root_where_n_is_one e = Some e' -> refines e e'.
+Proof.
+  intros e e' H. unfold reduce_nth_root_where_n_is_one in H.
+  RB_des e u v n. destruct (Pos.eqb n 1) eqn:E; [|discriminate].
+  apply Pos.eqb_eq in E. RB_inv H.
+  intros Hwf. simpl in Hwf.
+  split; [assumption|]. split; [RB_incl|].
+  intros rho HD. simpl in *. split; [tauto|].
+  symmetry. apply RB_root_1.
+Qed.
+
+(** the VALUE of root-of-power is preserved at every point (under [denote], whose [root]
+    keeps the sign): only the DOMAIN can shrink, in the even/even case *)
+Lemma reduce_nth_root_of_mth_power_value :
+  forall (e e' : expr R) (rho : env),
+    reduce_nth_root_of_mth_power e = Some e' -> denote rho e' = denote rho e.
+Proof.
+  intros e e' rho H. unfold reduce_nth_root_of_mth_power in H.
+  RB_des e w v n. RB_des w u u2 m. RB_inv H.
+  simpl. symmetry. apply RB_root_pow.
+Qed.
+
+Lemma RB_bad_label_root_of_power (u : expr R) (m n : positive) :
+  bad_label (LRule "_reduce_nth_root_of_mth_power" (NthRoot (NthPow u m) n))
+  = Z.even (Zpos n) && Z.even (Zpos m).
+Proof. reflexivity. Qed.
+
+Lemma reduce_nth_root_of_mth_power_sound :
+  forall e e' : expr R,
+    reduce_nth_root_of_mth_power e = Some e' ->
+    bad_label (LRule "_reduce_nth_root_of_mth_power" e) = false ->
+    refines e e'.
+Proof.
+  intros e e' H Hbad. pose proof (fun rho => reduce_nth_root_of_mth_power_value e e' rho H) as Hval.
+  unfold reduce_nth_root_of_mth_power in H.
+  RB_des e w v n. RB_des w u u2 m. RB_inv H.
+  rewrite RB_bad_label_root_of_power in Hbad.
+  intros Hwf. simpl in Hwf.
+  split; [assumption|]. split; [RB_incl|].
+  intros rho HD. split; [|apply Hval].
+  simpl in *. destruct HD as (HDu & Hdom).
+  split; [assumption|].
+  destruct Hdom as [?|[Hne Hp]]; [left; assumption|right].
+  split; [eapply RB_pow_neq0_inv; eassumption|].
+  intro Ev. rewrite Ev in Hbad. simpl in Hbad.
+  apply (RB_pow_odd_pos_inv m); auto.
+Qed.
+
+Lemma reduce_nth_root_of_mth_root_sound :
+  forall e e' : expr R, reduce_nth_root_of_mth_root e = Some e' -> refines e e'.
+Proof.
+  intros e e' H. unfold reduce_nth_root_of_mth_root in H.
+  RB_des e w v n. RB_des w u u2 m. RB_inv H.
+  intros Hwf. simpl in Hwf.
+  split; [assumption|]. split; [RB_incl|].
+  intros rho HD. simpl in *. destruct HD as ((HDu & Hm) & Hn).
+  split; [|symmetry; apply RB_root_root].
+  split; [assumption|].
+  destruct Hm as [->|[Hne Hpm]]; destruct Hn as [->|[Hrne Hpn]].
+  - left; reflexivity.
+  - rewrite Pos.mul_1_r. rewrite RB_root_1 in *. right; split; assumption.
+  - rewrite Pos.mul_1_l. right; split; assumption.
+  - right; split; [assumption|]. intro Ev.
+    rewrite Pos2Z.inj_mul, Z.even_mul in Ev. apply orb_true_iff in Ev.
+    destruct Ev as [Ev|Ev]; [|auto].
+    apply (RB_root_pos_inv m); auto.
+Qed.
+
+Lemma reduce_odd_nth_root_of_negation_sound :
+  forall e e' : expr R, reduce_odd_nth_root_of_negation e = Some e' -> refines e e'.
+Proof.
+  intros e e' H. unfold reduce_odd_nth_root_of_negation in H.
+  RB_des e w v n. RB_des w u u2 m.
+  destruct (Z.odd (Zpos n)) eqn:E; [|discriminate]. apply RB_odd_even in E. RB_inv H.
+  intros Hwf. simpl in Hwf.
+  split; [assumption|]. split; [RB_incl|].
+  intros rho HD. simpl in *. destruct HD as (HDu & Hdom).
+  split; [|symmetry; apply RB_root_opp].
+  split; [assumption|].
+  destruct Hdom as [?|[Hne Hp]]; [left; assumption|right].
+  split; [lra|]. intro Ev; congruence.
+Qed.
+
+Lemma reduce_nth_root_of_reciprocal_sound :
+  forall e e' : expr R, reduce_nth_root_of_reciprocal e = Some e' -> refines e e'.
+Proof.
+  intros e e' H. unfold reduce_nth_root_of_reciprocal in H.
+  RB_des e w v n. RB_des w u u2 m. RB_inv H.
+  intros Hwf. simpl in Hwf.
+  split; [assumption|]. split; [RB_incl|].
+  intros rho HD. simpl in *. destruct HD as ((HDu & Hne) & Hdom).
+  split; [|symmetry; apply RB_root_inv; assumption].
+  split; [|apply RB_root_neq0; assumption].
+  split; [assumption|].
+  destruct Hdom as [?|[_ Hp]]; [left; assumption|right].
+  split; [assumption|]. intro Ev. specialize (Hp Ev).
+  destruct (Rtotal_order (denote rho u) 0) as [Hx|[Hx|Hx]]; [|contradiction|assumption].
+  pose proof (Rinv_lt_0_compat _ Hx). lra.
+Qed.
+
+(** ** Exponential *)
+Lemma reduce_exponential_of_logarithm_sound :
+  forall e e' : expr R, reduce_exponential_of_logarithm RInst e = Some e' -> refines e e'.
+Proof.
+  intros e e' H. unfold reduce_exponential_of_logarithm in H.
+  RB_des e w b n. RB_des w u b' m. simpl in H.
+  destruct (Reqb b b') eqn:E; [|discriminate]. apply Reqb_true in E. RB_inv H.
+  intros Hwf. simpl in Hwf. destruct Hwf as (_ & Hb & Hb1 & Hu).
+  apply Rltb_true in Hb. apply Reqb_false in Hb1.
+  split; [assumption|]. split; [RB_incl|].
+  intros rho HD. simpl in *. destruct HD as (HDu & Hpos).
+  split; [assumption|]. symmetry. apply RB_Rpower_log; assumption.
+Qed.
+
+Lemma reduce_exponential_of_negation_sound :
+  forall e e' : expr R, reduce_exponential_of_negation e = Some e' -> refines e e'.
+Proof.
+  intros e e' H. unfold reduce_exponential_of_negation in H.
+  RB_des e w b n. RB_des w u u2 m. RB_inv H.
+  intros Hwf. simpl in Hwf.
+  split; [simpl; tauto|]. split; [RB_incl|].
+  intros rho HD. simpl in *.
+  split; [split; [assumption|apply RB_Rpower_neq0]|]. symmetry. apply Rpower_Ropp.
+Qed.
+
+(** ** Logarithm *)
+Lemma reduce_logarithm_of_exponential_sound :
+  forall e e' : expr R, reduce_logarithm_of_exponential RInst e = Some e' -> refines e e'.
+Proof.
+  intros e e' H. unfold reduce_logarithm_of_exponential in H.
+  RB_des e w b n. RB_des w u b' m. simpl in H.
+  destruct (Reqb b b') eqn:E; [|discriminate]. apply Reqb_true in E. RB_inv H.
+  intros Hwf. simpl in Hwf. destruct Hwf as (Hb & Hb1 & _ & Hu).
+  apply Rltb_true in Hb. apply Reqb_false in Hb1.
+  split; [assumption|]. split; [RB_incl|].
+  intros rho HD. simpl in *. destruct HD as (HDu & Hpos).
+  split; [assumption|]. symmetry. apply RB_log_Rpower; assumption.
+Qed.
+
+Lemma reduce_logarithm_of_reciprocal_sound :
+  forall e e' : expr R, reduce_logarithm_of_reciprocal e = Some e' -> refines e e'.
+Proof.
+  intros e e' H. unfold reduce_logarithm_of_reciprocal in H.
+  RB_des e w b n. RB_des w u u2 m. RB_inv H.
+  intros Hwf. simpl in Hwf.
+  split; [simpl; tauto|]. split; [RB_incl|].
+  intros rho HD. simpl in *. destruct HD as ((HDu & Hne) & Hpos).
+  assert (Hu : 0 < denote rho u).
+  { destruct (Rtotal_order (denote rho u) 0) as [Hx|[Hx|Hx]]; [|contradiction|assumption].
+    pose proof (Rinv_lt_0_compat _ Hx). lra. }
+  split; [tauto|]. rewrite ln_Rinv by assumption. unfold Rdiv. ring.
+Qed.
+
+Lemma reduce_logarithm_of_nth_power_sound :
+  forall e e' : expr R, reduce_logarithm_of_nth_power RInst e = Some e' -> refines e e'.
+Proof.
+  intros e e' H. unfold reduce_logarithm_of_nth_power in H.
+  RB_des e w b n. RB_des w u u2 m.
+  destruct (Z.odd (Zpos m)) eqn:E; [|discriminate]. apply RB_odd_even in E. RB_inv H.
+  intros Hwf. simpl in Hwf.
+  split; [simpl; tauto|]. split; [RB_incl|].
+  intros rho HD. simpl in *. destruct HD as (HDu & Hpos).
+  assert (Hu : 0 < denote rho u) by (apply (RB_pow_odd_pos_inv m); assumption).
+  split; [tauto|]. rewrite RB_ln_pow by assumption. unfold Rdiv. ring.
+Qed.
+
+(** ** KF-ROOT: the even/even instance of root-of-power *)
+
+(** [C08_root_of_power_refuted] (a VALUE discrepancy) is false as stated in Spec.v:
+    [Denote.root] keeps the sign for every n, so  root n (x^m) = (root n x)^m  everywhere
+    (e.g. n = m = 2, x = -3: both sides are 3). *)
+Theorem root_of_power_refuted_is_false : ~ C08_root_of_power_refuted.
+Proof.
+  intros (e & e' & rho & H & _ & _ & Hne). apply Hne.
+  apply reduce_nth_root_of_mth_power_value; assumption.
+Qed.
+
+(** what does fail is the DOMAIN: the input is defined, the output is not *)
+Theorem root_of_power_domain_refuted : C08_root_of_power_domain_refuted.
+Proof.
+  exists (NthRoot (NthPow (Var 1%positive) 6) 4), (NthPow (NthRoot (Var 1%positive) 4) 6),
+         (fun _ => -2).
+  split; [reflexivity|]. split; [exact I|]. split.
+  - simpl. split; [exact I|]. right. change (Pos.to_nat 6) with 6%nat. simpl.
+    split; [lra|intros _; lra].
+  - simpl. intros [_ [H|[_ H]]]; [discriminate|]. specialize (H eq_refl). lra.
+Qed.
+
+Lemma RB_root_2_9 : root 2 ((-3) ^ Pos.to_nat 2) = 3.
+Proof.
+  replace ((-3) ^ Pos.to_nat 2) with (3 ^ Pos.to_nat 2)
+    by (change (Pos.to_nat 2) with 2%nat; ring).
+  rewrite RB_root_pow. apply RB_root_pow_self. intros _; lra.
+Qed.
+
+(** corrected form of [C08_root_of_power_refuted]: [refines] fails on the even/even instance
+    (witness of the task: n = m = 2 at x = -3; the value is 3 on the left, the right is outside
+    its domain) *)
+Theorem root_of_power_refuted_corrected :
+  exists (e e' : expr R) (rho : env),
+    reduce_nth_root_of_mth_power e = Some e' /\ wfR e /\ InDomain rho e /\
+    bad_label (LRule "_reduce_nth_root_of_mth_power" e) = true /\
+    denote rho e = 3 /\
+    ~ (InDomain rho e' /\ denote rho e' = denote rho e).
+Proof.
+  exists (NthRoot (NthPow (Var 1%positive) 2) 2), (NthPow (NthRoot (Var 1%positive) 2) 2),
+         (fun _ => -3).
+  split; [reflexivity|]. split; [exact I|]. split; [|split; [reflexivity|split]].
+  - simpl. split; [exact I|]. right. change (Pos.to_nat 2) with 2%nat. simpl.
+    split; [lra|intros _; lra].
+  - apply RB_root_2_9.
+  - simpl. intros [[_ [H|[_ H]]] _]; [discriminate|]. specialize (H eq_refl). lra.
+Qed.
+
+(** the value discrepancy "3 versus -3" needs TWO rule applications: root-of-power
+    (even/even) followed by power-of-root with equal indices, which legitimately enlarges the
+    domain of its own input:  NthRoot (NthPow x 2) 2  ->  NthPow (NthRoot x 2) 2  ->  x *)
+Theorem root_of_power_two_step_value_refuted :
+  exists (e0 e1 : expr R) (x : name) (rho : env),
+    reduce_nth_root_of_mth_power e0 = Some e1 /    reduce_nth_power_of_mth_root e1 = Some (Var x) /    wfR e0 /\ InDomain rho e0 /    denote rho e0 = 3 /\ denote rho (Var x) = -3 /    denote rho (Var x) <> denote rho e0.
+Proof.
+  exists (NthRoot (NthPow (Var 1%positive) 2) 2), (NthPow (NthRoot (Var 1%positive) 2) 2),
+         1%positive, (fun _ => -3).
+  split; [reflexivity|]. split; [reflexivity|]. split; [exact I|].
+  assert (E : denote (fun _ => -3) (NthRoot (NthPow (Var 1%positive) 2) 2) = 3)
+    by apply RB_root_2_9.
+  split; [|split; [exact E|split; [reflexivity|]]].
+  - simpl. split; [exact I|]. right. change (Pos.to_nat 2) with 2%nat. simpl.
+    split; [lra|intros _; lra].
+  - rewrite E. simpl. lra.
+Qed.
+
+Corollary root_of_power_not_refines :
+  exists e e' : expr R, reduce_nth_root_of_mth_power e = Some e' /\ ~ refines e e'.
+Proof.
+  destruct root_of_power_domain_refuted as (e & e' & rho & H & Hwf & HD & HnD).
+  exists e, e'. split; [assumption|]. intro Href.
+  destruct (Href Hwf) as (_ & _ & Hall). destruct (Hall rho HD) as [HD' _]. contradiction.
+Qed.
+
+(** ** Summary: every rule of the five classes, except the even/even root-of-power instance *)
+Theorem rules_sound_B :
+  forall nm f (e e' : expr R),
+    In (nm, f) (reducers_Power RInst ++ reducers_NthPower RInst ++ reducers_NthRoot ++
+                reducers_Exponential RInst ++ reducers_Logarithm RInst) ->
+    f e = Some e' -> bad_label (LRule nm e) = false -> refines e e'.
+Proof.
+  intros nm f e e' Hin Hf Hbad.
+  unfold reducers_Power, reducers_NthPower, reducers_NthRoot, reducers_Exponential,
+    reducers_Logarithm in Hin.
+  cbn [app In] in Hin.
+  repeat (destruct Hin as [Hin|Hin];
+          [injection Hin as <- <-;
+           first [ apply reduce_nth_root_of_mth_power_sound; assumption
+                 | revert Hf;
+                   first [ apply reduce_u_to_the_one_sound
+                         | apply reduce_u_to_the_zero_sound
+                         | apply reduce_one_to_the_u_sound
+                         | apply reduce_u_to_the_n_at_least_two_sound
+                         | apply reduce_u_to_the_negative_one_sound
+                         | apply reduce_power_with_constant_base_sound
+                         | apply reduce_power_of_power_sound
+                         | apply reduce_u_to_the_negation_of_v_sound
+                         | apply reduce_reciprocal_u_to_the_v_sound
+                         | apply reduce_nth_power_where_n_is_one_sound
+                         | apply reduce_nth_power_of_mth_root_sound
+                         | apply reduce_nth_power_of_mth_power_sound
+                         | apply reduce_nth_power_of_negation_sound
+                         | apply reduce_nth_power_of_reciprocal_sound
+                         | apply reduce_nth_power_of_exponential_sound
+                         | apply reduce_nth_root_where_n_is_one_sound
+                         | apply reduce_nth_root_of_mth_root_sound
+                         | apply reduce_odd_nth_root_of_negation_sound
+                         | apply reduce_nth_root_of_reciprocal_sound
+                         | apply reduce_exponential_of_logarithm_sound
+                         | apply reduce_exponential_of_negation_sound
+                         | apply reduce_logarithm_of_exponential_sound
+                         | apply reduce_logarithm_of_reciprocal_sound
+                         | apply reduce_logarithm_of_nth_power_sound ] ]
+          |]).
+  contradiction.
+Qed.
+
+(** non-vacuity: rules fire on non-trivial trees *)
+Example rules_sound_B_nonvacuous :
+  refines (NthPow (NthRoot (Add [Var 1%positive; Const 1]) 6) 4)
+          (NthPow (NthRoot (Add [Var 1%positive; Const 1]) 3) 2)
+  /\ refines (NthRoot (NthPow (Var 1%positive) 2) 3) (NthPow (NthRoot (Var 1%positive) 3) 2).
+Proof.
+  split.
+  - apply (rules_sound_B "_reduce_nth_power_of_mth_root" reduce_nth_power_of_mth_root);
+      [simpl; tauto|reflexivity|reflexivity].
+  - apply (rules_sound_B "_reduce_nth_root_of_mth_power" reduce_nth_root_of_mth_power);
+      [simpl; tauto|reflexivity|reflexivity].
+Qed.
+
+Print Assumptions rules_sound_B.
+Print Assumptions root_of_power_refuted_is_false.
+Print Assumptions root_of_power_domain_refuted.
+Print Assumptions root_of_power_refuted_corrected.
+Print Assumptions root_of_power_two_step_value_refuted.
